@@ -37,11 +37,16 @@ static int ndims(int tier, vnacal_type_t t)
 }
 
 #define NAB 2
-#define NRECIPE 2
+#define NRECIPE 3
 #define NEV 3
 #define NAV 4
 #define NPV 2
 #define NKV 3
+/* parameters created (and kept) before the scenario's own: the handles the
+   standards use then start at 3, 8 or 16, i.e. at and around the sizes at
+   which tables keyed by the handle begin and grow */
+#define NFILL 3
+static const int fillers[NFILL] = { 0, 5, 13 };
 static int nnf(int tier)  { return tier ? 3 : 2; }
 static int nnet(int tier) { return tier ? 3 : 1; }
 
@@ -50,12 +55,14 @@ static long count(int tier)
     long n = 0;
     for (int t = 0; t < 8; ++t)
 	n += (long)ndims(tier, types[t]);
-    return n * NAB * NRECIPE * NEV * NAV * NPV * NKV * nnf(tier) * nnet(tier);
+    return n * NAB * NRECIPE * NEV * NAV * NPV * NKV * nnf(tier) * nnet(tier)
+	* NFILL;
 }
 
 static void run(int tier, long idx, vf_result *r)
 {
     static cs_scenario sc;
+    int fill = fillers[vf_digit(&idx, NFILL)];
     int net = vf_digit(&idx, nnet(tier));
     int nf = vf_digit(&idx, nnf(tier)) + 1;
     int kv = vf_digit(&idx, NKV);
@@ -95,8 +102,8 @@ static void run(int tier, long idx, vf_result *r)
 	return;
     }
     cs_describe(&sc, desc, sizeof(desc));
-    vf_desc(r, "net=%d ev=%d av=%d pv=%d kv=%d %s", net, ev, av, pv, kv,
-	    desc);
+    vf_desc(r, "net=%d ev=%d av=%d pv=%d kv=%d first-handle=%d %s", net, ev,
+	    av, pv, kv, 3 + fill, desc);
 
     long double margin;
     int eqs, unk;
@@ -115,6 +122,12 @@ static void run(int tier, long idx, vf_result *r)
 	vf_fail(r, "create", "vnacal_create failed: errno %d", errno);
 	return;
     }
+    for (int i = 0; i < fill; ++i)
+	if (vnacal_make_scalar_parameter(vcp, 0.05 * (i + 1) - 0.3 * I) < 0) {
+	    vf_fail(r, "make-param", "creating an unrelated parameter "
+		    "failed: %s", elog.count ? elog.msg[0] : "?");
+	    goto out;
+	}
     cs_vector_on_cal = pv;	/* half of the cases: knots on the grid */
     int mprc = cs_make_params(vcp, &sc);
     cs_vector_on_cal = 0;
